@@ -249,6 +249,9 @@ fn main() {
         let rules = rule_list(&mut r, n_net, n_cos);
         let (debug, optimize) = CONFIGS[i % 4];
         let tags: &[&str] = TAGSETS[(i / 4) % TAGSETS.len()];
+        // every fifth engine is assembled from several lists with different permission masks
+        MULTI_LIST.with(|m| m.set(i % 5 == 4));
+        if i % 5 == 4 { *stats.entry("engines_from_several_lists_with_different_permissions".into()).or_insert(0) += 1; }
         let b = check_list(&mut sm, &rules, debug, optimize, tags, &mut stats);
         let mut e = build(&rules, debug, optimize, 0);
         if !tags.is_empty() {
@@ -285,6 +288,7 @@ fn main() {
             }
         }
     }
+    MULTI_LIST.with(|m| m.set(false));
 
     // ---- correspondence: insert_dup / fl_insert_all vs NetworkFilterList::new(filters, false)
     for _ in 0..(160 * a.scale) {
